@@ -566,6 +566,25 @@ fn entry_points<C: Suite>(o: &mut Outcome, tag: &str, entry: &str, big: usize) {
                     for (n1, m1) in &r1_maps {
                         run!("dkg::part2", format!("round1={n1}"), || C::w_part2(run.sp1[&me].clone(), m1).is_ok());
                     }
+                    // commitment vectors whose length wraps the u16 threshold (65536 -> 0, 65537 -> 1)
+                    for (vn, vss) in vss_wrapping::<C>(&w) {
+                        let mut m = honest_r1.clone();
+                        m.insert(peer, d1::Package::new(vss.clone(), pok));
+                        run!("dkg::part2", format!("round1=peer:commitment={vn}"), || C::w_part2(run.sp1[&me].clone(), &m).is_ok());
+                        let mut rng = ScriptedRng::ctr("c14rw");
+                        if let Ok((rsp1, _)) = C::w_refresh_dkg_part1(me, 3, 2, &mut rng) {
+                            run!("refresh_dkg_part2", format!("round1=peer:commitment={vn}"), || C::w_refresh_dkg_part2(rsp1.clone(), &m).is_ok());
+                        }
+                        let one: BTreeSet<Id<C>> = [me].into_iter().collect();
+                        let none: BTreeSet<Id<C>> = BTreeSet::new();
+                        run!("PublicKeyPackage::from_commitment", format!("ids=none commitment={vn}"), || PublicKeyPackage::<C>::from_commitment(&none, &vss).is_ok());
+                        if C::NAME != "ed448" && C::NAME != "p256" {
+                            run!("PublicKeyPackage::from_commitment", format!("ids=one commitment={vn}"), || PublicKeyPackage::<C>::from_commitment(&one, &vss).is_ok());
+                        }
+                        let sh = SecretShare::<C>::new(me, *kp.signing_share(), vss.clone());
+                        let bytes = sh.serialize();
+                        run!("SecretShare::serialize+deserialize", format!("commitment={vn}"), || bytes.as_ref().map(|b| SecretShare::<C>::deserialize(b).is_ok()).unwrap_or(false));
+                    }
                     // own secret package with hostile counts is the caller's own state: honest only
                 }
                 "dkg_part3" => {
